@@ -25,6 +25,7 @@ import (
 	"net/http"
 	"net/http/httptest"
 	"net/url"
+	"runtime"
 	"sort"
 	"strings"
 	"sync"
@@ -99,9 +100,20 @@ func (d *directory) fill(group string) ([]string, error) {
 	case 1:
 		return nil, groups.ErrGroupNotFound
 	case 3:
-		panic("malformed directory response")
+		// panic only where doUpdate's recover is on this goroutine's stack; if the code under test calls the
+		// fill func from another goroutine (stored change C17-11) an escaped panic would take the driver
+		// down and lose every case, so the fill fails there the ordinary way (the model sees FErr either way)
+		if underDoUpdate() {
+			panic("malformed directory response")
+		}
 	}
 	return nil, errors.New("directory unavailable")
+}
+
+func underDoUpdate() bool {
+	buf := make([]byte, 1<<15)
+	n := runtime.Stack(buf, false)
+	return strings.Contains(string(buf[:n]), "doUpdate.func")
 }
 
 func (d *directory) direct() ([]string, error) {
